@@ -118,4 +118,152 @@ theorem getRes_frame (fixed : Bool) {s : State} (h : NoRepair s) :
     · exact triv
   · rw [hsp]; exact triv
 
+theorem finish_frame (fixed : Bool) {s : State} (hs : s.status ≠ .running) :
+    ∃ r mp, (finish fixed s).1 =
+      { s with phase := .done, cbOpen := false, pending := none,
+               worker := if s.worker = Worker.alive then Worker.dead else s.worker,
+               results := r, mapPending := mp } := by
+  unfold finish
+  simp only
+  split
+  · have hn : NoRepair { s with phase := .done, cbOpen := false, pending := none,
+        worker := if s.worker = Worker.alive then Worker.dead else s.worker } := fun h => hs h.1
+    obtain ⟨r, mp, h⟩ := getRes_frame fixed hn
+    exact ⟨r, mp, h⟩
+  · exact ⟨s.results, s.mapPending, rfl⟩
+
+/-! ### the invariant is preserved by every event (both versions of the code) -/
+
+/-- "the task function is active" part of the shape, status left open -/
+def ActiveShape (s : State) : Prop :=
+  s.phase = .active ∧ ((s.mode = .sync ∧ s.worker = .none) ∨ (s.mode = .async ∧ s.worker = .alive)) ∧
+    s.fnCalls = 1
+
+theorem Inv.activeShape {s : State} (h : Inv s) (ha : s.phase = .active) : ActiveShape s := by
+  rcases h.cases with h | h | h | h | h | h | h <;> simp_all [ActiveShape]
+
+theorem inv_finish (fixed : Bool) {s : State} (hf : s.status.isFinal = true) (ha : ActiveShape s) :
+    Inv (finish fixed s).1 := by
+  have hs : s.status ≠ .running := by intro h; simp [h, St.isFinal] at hf
+  obtain ⟨r, mp, h⟩ := finish_frame fixed hs
+  rw [h]
+  obtain ⟨h1, h2 | h2, h3⟩ := ha <;> simp [Inv, shapeOk, h1, h2, h3, hf]
+
+theorem inv_execEntry (cfg : Cfg) (s : State) (c : Call) (async : Bool) (h : Inv s)
+    (hen : callerEnabled s = true) : Inv (execEntry cfg s c async).1 := by
+  unfold execEntry
+  split
+  · exact h
+  · next hw =>
+    have hw : s.status = .waiting := Classical.not_not.mp hw
+    have hidle : s.phase = .idle ∧ s.mode = .none ∧ s.worker = .none ∧ s.cbOpen = false ∧ s.fnCalls = 0 := by
+      rcases h.cases with h | h | h | h | h | h | h <;> simp_all [callerEnabled, St.isFinal]
+    obtain ⟨a, b, c', d, e⟩ := hidle
+    simp only
+    split
+    · simp [Inv, shapeOk, *]
+    · cases async <;> simp [Inv, shapeOk, *]
+
+theorem inv_step (fixed : Bool) (cfg : Cfg) (s : State) (e : Ev) (h : Inv s) :
+    Inv (step fixed cfg s e).1 := by
+  cases e with
+  | execSync c =>
+    simp only [step]
+    split
+    · next hen =>
+      obtain ⟨p, hp⟩ := notePending_fst s (execEntry cfg s c false)
+      rw [hp]; exact inv_execEntry cfg s c false h hen
+    · exact h
+  | execAsync c =>
+    simp only [step]
+    split
+    · next hen =>
+      obtain ⟨p, hp⟩ := notePending_fst s (execEntry cfg s c true)
+      rw [hp]; exact inv_execEntry cfg s c true h hen
+    · exact h
+  | statusQuery =>
+    simp only [step]
+    split
+    · obtain ⟨p, hp⟩ := notePending_fst s (actStatus fixed s)
+      rw [hp]
+      have : (actStatus fixed s).1 = s := by
+        unfold actStatus
+        have hsp : statusProp fixed s = .ok s ∨ ∃ e, statusProp fixed s = .error e := by
+          cases fixed
+          · unfold statusProp
+            split
+            · next hs =>
+              cases hw : s.worker
+              · simp
+              · simp
+              · exact absurd ⟨hs, hw⟩ h.noRepair
+            · exact .inl rfl
+          · exact .inl (statusProp_true h.noRepair)
+        rcases hsp with hsp | ⟨e, hsp⟩ <;> rw [hsp]
+      rw [this]; exact h
+    · exact h
+  | cancel =>
+    simp only [step]
+    split
+    · exact h
+    · exact h
+  | getResults =>
+    simp only [step]
+    split
+    · obtain ⟨p, hp⟩ := notePending_fst s (actGet fixed s)
+      rw [hp]
+      obtain ⟨r, mp, hg⟩ := getRes_frame fixed h.noRepair
+      have : (actGet fixed s).1 = (getRes fixed s).1 := by
+        unfold actGet; split <;> simp [*]
+      rw [this, hg]; exact h
+    · exact h
+  | tStart =>
+    simp only [step]
+    split
+    · next hp =>
+      rcases h.cases with h | h | h | h | h | h | h <;> simp_all [taskStart, Inv, shapeOk]
+    · exact h
+  | tProgress p =>
+    simp only [step]
+    split
+    · next hp =>
+      unfold taskProgress
+      rcases h.cases with h | h | h | h | h | h | h <;> simp_all <;>
+        (split <;> [skip; split] <;> simp_all [Inv, shapeOk])
+    · exact h
+  | tReturn r =>
+    simp only [step]
+    split
+    · next hp =>
+      have ha := h.activeShape hp
+      unfold taskReturn
+      simp only
+      split
+      · exact inv_finish fixed (by simp [stopRun, St.isFinal]) (by simpa [ActiveShape, stopRun] using ha)
+      · exact inv_finish fixed (by simp [stopRun, St.isFinal]) (by simpa [ActiveShape, stopRun] using ha)
+    · exact h
+  | tRaise c t =>
+    simp only [step]
+    split
+    · next hp =>
+      have ha := h.activeShape hp
+      exact inv_finish fixed (by simp [stopRun, St.isFinal]) (by simpa [ActiveShape, stopRun] using ha)
+    · exact h
+  | tPropagate =>
+    simp only [step]
+    split
+    · next hp =>
+      have ha := h.activeShape hp.1
+      split
+      · exact inv_finish fixed (by simp [stopRun, St.isFinal]) (by simpa [ActiveShape, stopRun] using ha)
+      · exact h
+    · exact h
+
+theorem inv_after (fixed : Bool) (cfg : Cfg) (w : List Ev) : Inv (after fixed cfg w) :=
+  inv_exec (step fixed cfg) Inv (fun s e h => inv_step fixed cfg s e h) _ (inv_init cfg) w
+
+theorem inv_exec' (fixed : Bool) (cfg : Cfg) {s : State} (h : Inv s) (w : List Ev) :
+    Inv (exec (step fixed cfg) s w) :=
+  inv_exec (step fixed cfg) Inv (fun s e h => inv_step fixed cfg s e h) _ h w
+
 end PM.C18
